@@ -159,6 +159,23 @@ template <class T> struct CaseChecker
             if (!(dz <= 16 * eps))
                 R ().fail ("extractEulerZYX.rebuild", in (), "Rz*Ry*Rx of the result within 16 eps", vf::Msg () << ref::fmtE (dz / eps) << " eps; rot (" << r.x << " " << r.y << " " << r.z << ")");
             t.transitions += 2;
+            // The free extractors normalise the three rows first, so a uniformly scaled rotation matrix (exact power-of-two
+            // scalings, down to where the squared row length underflows and up to where it is huge) must give the
+            // same rotation
+            const bool dbl = std::numeric_limits<T>::digits > 30;
+            const int  SC[3] = {dbl ? -540 : -70, dbl ? -600 : -100, dbl ? 500 : 60};
+            for (int q = 0; q < 3; ++q)
+            {
+                Matrix44<T> ms = m4;
+                for (int i = 0; i < 3; ++i) for (int j = 0; j < 3; ++j) ms[i][j] = (T) std::ldexp ((double) m4[i][j], SC[q]);
+                extractEulerXYZ (ms, r);
+                LD dxs = ref::maxdiff (ref::compose (0, 1, 2, r.x, r.y, r.z), L3);
+                if (!(dxs <= 16 * eps)) R ().fail ("extractEulerXYZ.rebuild.scaled-matrix", in () + " rows*2^" + std::to_string (SC[q]), "within 16 eps", vf::Msg () << ref::fmtE (dxs / eps) << " eps; rot (" << r.x << " " << r.y << " " << r.z << ")");
+                extractEulerZYX (ms, r);
+                LD dzs = ref::maxdiff (ref::compose (2, 1, 0, r.x, r.y, r.z), L3);
+                if (!(dzs <= 16 * eps)) R ().fail ("extractEulerZYX.rebuild.scaled-matrix", in () + " rows*2^" + std::to_string (SC[q]), "within 16 eps", vf::Msg () << ref::fmtE (dzs / eps) << " eps; rot (" << r.x << " " << r.y << " " << r.z << ")");
+                t.transitions += 2;
+            }
         }
     }
 };
